@@ -15,6 +15,7 @@ ALL_INVARIANTS = [
     "Inv_C06_AppendOnly", "Inv_C06_Numbered",
     "Inv_C08_Partition", "Inv_C08_ChildRoot", "Inv_C08_Refs", "Inv_C08_WhoWrites",
     "Inv_C12_Excluded", "Inv_C12_Accumulate", "Inv_NoInternal",
+    "Inv_C18_Summary", "Inv_C18_VerifyPL", "Inv_C19_Info", "Inv_C19_InfoSF", "Inv_C14_Frame",
 ]
 
 
@@ -53,6 +54,30 @@ SCOPES = {
         roots=[P()], fmtchoices=[["md5"], ["xxh64"]], pats=[()], sf=[frozenset({P("d", "b")})],
         ops=["alter", "delete", "mkdir", "create", "createsf", "verify", "diff", "verifysf"], maxgens=2, maxops=5, keepsnap=False,
     ),
+    # every command on a small flat tree (C14, C18, C19)
+    "cmds": dict(
+        fmts=["md5", "sha1"], files=[P("a"), P("d", "b")], dirs=[P("d")],
+        init={P("a"): "c1", P("d"): "DIR", P("d", "b"): "c2"}, contents=["c1", "c2"],
+        roots=[P()], fmtchoices=[["md5"], ["sha1"], ["md5", "sha1"]], pats=[()], sf=[frozenset({P("d", "b")})],
+        ops=["alter", "delete", "create", "createsf", "verify", "diff", "verifysf", "flatten", "verifypl", "info", "infosf", "hash"],
+        maxgens=3, maxops=6, keepsnap=False,
+    ),
+    # flatten and verify -pl over flat histories with changing formats, failed entries, partial -sf generations
+    "flat": dict(
+        fmts=["md5", "sha1"], files=[P("a"), P("d", "b")], dirs=[P("d")],
+        init={P("a"): "c1", P("d"): "DIR", P("d", "b"): "c2"}, contents=["c1", "c2"],
+        roots=[P()], fmtchoices=[["md5"], ["sha1"], ["md5", "sha1"]], pats=[()], sf=[frozenset({P("d", "b")}), frozenset({P("a")})],
+        ops=["alter", "delete", "create", "createsf", "flatten", "verifypl"],
+        maxgens=3, maxops=7, keepsnap=False,
+    ),
+    # info / info -sf over nested histories
+    "inf": dict(
+        fmts=["md5", "sha1"], files=[P("a"), P("d", "b")], dirs=[P("d")],
+        init={P("a"): "c1", P("d"): "DIR", P("d", "b"): "c2"}, contents=["c1", "c2"],
+        roots=[P(), P("d")], fmtchoices=[["md5"], ["sha1"], ["md5", "sha1"]], pats=[()], sf=[frozenset({P("d", "b")})],
+        ops=["alter", "create", "createsf", "info", "infosf"],
+        maxgens=4, maxops=7, keepsnap=False,
+    ),
     # nested histories: root > d > d/e, sibling d2 (name is a prefix extension of d)
     "nest": dict(
         fmts=["md5"], files=[P("a"), P("d", "b"), P("d", "e", "c"), P("d2", "f")], dirs=[P("d"), P("d", "e"), P("d2")],
@@ -64,13 +89,13 @@ SCOPES = {
     ),
     # ignore patterns: a base-name pattern, a glob class, applied to files and a directory
     "ign": dict(
-        fmts=["md5"], files=[P("a"), P("x"), P("k_t"), P("d", "x"), P("d", "b"), P("g", "c")], dirs=[P("d"), P("g")],
-        init={P("a"): "c1", P("x"): "c1", P("k_t"): "c1", P("d"): "DIR", P("d", "x"): "c1", P("d", "b"): "c1", P("g"): "DIR", P("g", "c"): "c1"},
+        fmts=["md5"], files=[P("a"), P("x"), P("k_t"), P("d", "x"), P("d", "b"), P("g", "c"), P("d", "dsstore")], dirs=[P("d"), P("g")],
+        init={P("a"): "c1", P("x"): "c1", P("k_t"): "c1", P("d"): "DIR", P("d", "x"): "c1", P("d", "b"): "c1", P("g"): "DIR", P("g", "c"): "c1", P("d", "dsstore"): "c1"},
         contents=["c1", "c2"], roots=[P(), P("d")], fmtchoices=[["md5"]],
         pats=[(), ("n:x",), ("g:tmp",), ("n:g",), ("n:x", "g:tmp")], sf=[],
         ops=["alter", "delete", "create", "verify", "diff"], maxgens=2, maxops=4, keepsnap=False,
-        mutable=[P("x"), P("d", "x"), P("a")],
-        patnames={"n:x": ["x"], "g:tmp": ["k_t"], "n:g": ["g"]},
+        mutable=[P("x"), P("d", "x"), P("a"), P("d", "dsstore")],
+        patnames={"n:x": ["x"], "g:tmp": ["k_t"], "n:g": ["g"], ".DS_Store": ["dsstore"]},
     ),
     # renames with -dr
     "ren": dict(
